@@ -278,6 +278,26 @@ func c02Probes(c *ev.Ctx) {
 // decide (true, false, 1 == 1, 2 < 1, a folded sum), returns in one arm / both / none, at
 // top level and inside a function, with and without an earlier conditional jump.
 func c02ConstantConditions(c *ev.Ctx) {
+	objs := []map[string]model.Value{{"Flag": model.Bool(true), "Other": model.Bool(false)}, {"Flag": model.Bool(false), "Other": model.Bool(true)}}
+	for _, cp := range constCondPrograms() {
+		if !c.Want(cp.id) {
+			continue
+		}
+		for _, noOpt := range []bool{false, true} {
+			judged := checkProgramAgainstModel(c, cp.id, "control flow under a constant condition", cp.p, nil, objs, noOpt)
+			c.Case(gast.Text(cp.p)+fmt.Sprint(noOpt), judged > 0)
+		}
+	}
+}
+
+type constCondProgram struct {
+	id string
+	p  gast.Program
+}
+
+// constCondPrograms builds the constant-condition family (also verified structurally by C18).
+func constCondPrograms() []constCondProgram {
+	var out []constCondProgram
 	id := func(n string) gast.Expr { return gast.Ident{Name: n} }
 	il := func(v int64) gast.Expr { return gast.IntLit{V: v} }
 	tr := func(k int64, a ...gast.Expr) gast.Stmt {
@@ -302,15 +322,10 @@ func c02ConstantConditions(c *ev.Ctx) {
 		{"empty-then", nil, []gast.Stmt{tr(2), ret(20)}, true, nil},
 		{"else-if", []gast.Stmt{tr(1)}, []gast.Stmt{tr(2), ret(20)}, true, id("Other")},
 	}
-	n := 0
 	for ci, cond := range conds {
 		for _, a := range arms {
 			for variant := 0; variant < 6; variant++ {
-				n++
 				cid := fmt.Sprintf("const-cond/%d/%s/%d", ci, a.name, variant)
-				if !c.Want(cid) {
-					continue
-				}
 				ifs := gast.If{C: cond, Then: a.then, HasElse: a.hasElse, Else: a.els}
 				if a.elseIfCond != nil {
 					ifs.ElseIf = true
@@ -325,22 +340,17 @@ func c02ConstantConditions(c *ev.Ctx) {
 					body = append([]gast.Stmt{gast.Assign{Name: "seen", X: il(7)}, tr(0), ifs}, tail...)
 				case 2: // after an earlier conditional jump
 					body = append([]gast.Stmt{gast.If{C: id("Flag"), Then: []gast.Stmt{tr(8)}}, ifs}, tail...)
-				case 3: // as loop condition shape: while with a constant condition leaving by return
+				case 3: // inside a loop that is left by the return
 					body = append([]gast.Stmt{gast.Assign{Name: "w", X: il(2)}, gast.While{C: gast.Infix{Op: ">", L: id("w"), R: il(0)}, Body: []gast.Stmt{gast.IncDec{Name: "w", Op: "--"}, ifs}}}, tail...)
 				case 4: // nested in a constant-true if
 					body = append([]gast.Stmt{gast.If{C: gast.BoolLit{V: true}, Then: []gast.Stmt{ifs, tr(6)}}}, tail...)
-				case 5: // ternary with the same condition in front
+				case 5: // a ternary with the same condition in front
 					body = append([]gast.Stmt{gast.Assign{Name: "seen", X: gast.Ternary{C: cond, A: il(1), B: il(2)}}, ifs}, tail...)
 				}
-				progs := []gast.Program{{Stmts: body}, {Stmts: []gast.Stmt{gast.FuncDef{Name: "fn", Params: []string{"q"}, Body: body}, gast.Assign{Name: "r", X: gast.Call{Fn: "fn", Args: []gast.Expr{il(1)}}}, tr(9, id("r")), gast.Return{X: id("r")}}}}
-				objs := []map[string]model.Value{{"Flag": model.Bool(true), "Other": model.Bool(false)}, {"Flag": model.Bool(false), "Other": model.Bool(true)}}
-				for pi, p := range progs {
-					for _, noOpt := range []bool{false, true} {
-						judged := checkProgramAgainstModel(c, cid, "control flow under a constant condition", p, nil, objs, noOpt)
-						c.Case(gast.Text(p)+fmt.Sprint(noOpt, pi), judged > 0)
-					}
-				}
+				out = append(out, constCondProgram{cid + "/main", gast.Program{Stmts: body}},
+					constCondProgram{cid + "/function", gast.Program{Stmts: []gast.Stmt{gast.FuncDef{Name: "fn", Params: []string{"q"}, Body: body}, gast.Assign{Name: "r", X: gast.Call{Fn: "fn", Args: []gast.Expr{il(1)}}}, tr(9, id("r")), gast.Return{X: id("r")}}}})
 			}
 		}
 	}
+	return out
 }
